@@ -11,5 +11,6 @@ CONSTANTS
   AppendOnly = FALSE
   Persist = FALSE
   EmitDepth = 150
+  FanFrom = 150
 INVARIANTS WellFormed Refines EmitWalk
 CHECK_DEADLOCK FALSE
